@@ -52,7 +52,9 @@ pub fn run(case: &Value, em: &mut Emitter) {
     };
     for (n, q) in qs.iter().enumerate() {
         let via = match case.get("via") { Some(v) => v.as_str().unwrap().to_string(), None => ["map", "index", "decoded"][n % 3].to_string() };
-        one(&sm, &sv, lines, &observed, &names, *q, &name, &via, em);
+        // every third resolution goes through a clone of the view taken at that moment (after earlier resolutions)
+        if n % 3 == 2 { let c = sv.clone(); one(&sm, &c, lines, &observed, &names, *q, &name, &via, em); }
+        else { one(&sm, &sv, lines, &observed, &names, *q, &name, &via, em); }
     }
 }
 
